@@ -120,7 +120,9 @@ CLAIMS["C05"] = (
     "C05_model_all_trails_exact / C05_model_first_trail_exact - every reported trail, followed through the datum, reaches a "
     "sub-value that offends the crown node found along the same trail exactly as the error class says (wrong kind; exactly "
     "the missing required keys; exactly the unknown keys; too short / long a list); C05_model_all_reports_every_offence - ALL "
-    "is complete at every depth; C05_model_disable_no_trail (Proofs/CrownTrails.v over Model/CrownSem.v, which the C03 "
+    "is complete at every depth; C05_model_all_errors_are_distinct / C05_accepted_layout_reports_each_offence_once - ALL's errors "
+    "are pairwise different in every crown with distinct keys, i.e. in every layout the builder accepts: each offence exactly "
+    "once; C05_model_disable_no_trail (Proofs/CrownTrails.v, CrownOnce.v, LayoutWf.v over Model/CrownSem.v, which the C03 "
     "correspondence and the model_faults / repeated_trails blocks tie to the generated loaders). One defect "
     "repaired (ExcludedTypeLoadError.input_value).", "DESIGN.md section 5 C05", TECH)
 
@@ -138,7 +140,11 @@ CLAIMS["C01"] = (
     "repaired (Literal with enum/bytes next to 0/1; timedelta).", "DESIGN.md section 5 C01", TECH)
 
 CLAIMS["C18"] = (
-    "Proof: 7 theorems (Props/C18.v) over Model/Enum.v with flags as N bit sets: flag_by_member_names dumper loop + loader "
+    "Proof: 10 theorems (Props/C18.v) over Model/Enum.v. enum_by_name (name_style / map keyed by member or by name): "
+    "C18_by_name_is_bijection - with pairwise different strings dump-then-load returns every member, "
+    "C18_by_name_accepts_exactly_the_names, and C18_by_name_collision_refuted (a map giving two members one string is not a "
+    "bijection; the library does not reject it); the model's table generator is compared with the library on random enums, maps "
+    "and styles. Flags as N bit sets: flag_by_member_names dumper loop + loader "
     "OR round-trips every value whose bits are covered by admitted cases, for both allow_compound settings incl. the "
     "reversed visiting order (bit-level reasoning with N.testbit), hence every OR of admitted members; the dumper names only "
     "members inside the value; flag_by_exact_value accepts exactly 0..mask and with no skipped bit every such value is a "
@@ -155,11 +161,17 @@ CLAIMS["C14"] = (
     "destination type (induction on the pair of types, value typing judgement has_type with a transitive subclass relation); "
     "C14_coercer_documented - a coercer exists only for pairs in the inductive transcription of the documented list (same "
     "type, Any, non-generic subclass, union subset by equality, element-wise list / dict / Optional); the origin-only rule of "
-    "the pinned tree refuted by a witness. Tied to the code exhaustively: all ordered pairs over a 38-type pool, converter "
+    "the pinned tree refuted by a witness; C14_unlinked_field_is_refused - over the converter model of C13, a destination field "
+    "that nothing links (no provider, no same-named source field, no top-level parameter) makes creation fail when it is "
+    "required or optional without allow_unlinked_optional, for every recipe, source object and depth; "
+    "C14_allowed_unlinked_optional_keeps_default. Tied to the code exhaustively: all ordered pairs over a 38-type pool, converter "
     "creation compared with the model, every produced converter run on generated values and the result type-checked by the "
     "harness's own checker; unlinked-field policies; per-call-recipe history scenarios.",
-    "Trusted: Coq kernel, renderers, issubclass table of the pool classes. Models-as-field-types go through C13. Two defects "
-    "repaired in /repo (origin-only union sub-case, multi-case union treated as Optional).", "DESIGN.md section 5 C14", TECH)
+    "Trusted: Coq kernel, renderers, issubclass table of the pool classes. Models-as-field-types go through C13. Destinations "
+    "outside the model's type language (tuple[..], type[..], Callable[..], ad-hoc subscriptable classes, PEP 695 aliases) are "
+    "covered by a direct oracle only (special_forms_block). Three defects repaired in /repo (origin-only union sub-case, "
+    "multi-case union treated as Optional, tuple[()]); one known finding (parametrised PEP 695 aliases lose their arguments).",
+    "DESIGN.md section 5 C14", TECH)
 
 CLAIMS["C16"] = (
     "Proof: C16_resolver_is_substitution - for every well-formed class table (any depth, any number of bases, variables "
@@ -245,7 +257,7 @@ CLAIMS["C03"] = (
     "C03_layout_puts_every_field_at_its_path - for EVERY shape and stack of providers, whenever the layout is accepted "
     "every presented field is found in the built (and re-ordered) crown at exactly its path. Behaviour, for every crown and "
     "datum: C03_load_reads_exact_paths (all three debug modes: a successful load took each field from exactly its path, or the "
-    "default of an optional field whose key is absent, and nothing else), C03_load_dump_roundtrip (loading what the dumper "
+    "default of an optional field whose key is absent, and nothing else), C03_accepted_layout_has_distinct_keys (every accepted layout satisfies the well-formedness the crown theorems assume), C03_load_dump_roundtrip (loading what the dumper "
     "wrote gives back every field and no extras, omit_default included), C03_dumper_writes_exact_paths (every field at that "
     "path, left out exactly when its sieve applies and value == default; list gaps None), extras: collect / forbid / skip "
     "exactness. Tied to the code per generated program: the library's loader (3 debug modes) and dumper against the model "
